@@ -22,6 +22,8 @@ package c03
 //	cf-fast-closeonly  … plus io.ReaderFrom / io.WriterTo         NO CloseWrite anywhere
 //	cf-iopipe          {*io.PipeReader, *io.PipeWriter} pair      NO CloseWrite (the pair is not a *io.PipeWriter)
 //	cf-netpipe         one end of net.Pipe (embedded)             NO CloseWrite; its peer cannot half-close either
+//	cf-dataeof         own CloseWrite method; Read hands out the last bytes TOGETHER with io.EOF (n > 0, io.EOF)
+//	                   whenever the target's end-of-stream has arrived by then (eos.go, only in eosModes)
 
 import (
 	"errors"
@@ -208,6 +210,10 @@ func (e *env) legFor(c *net.TCPConn) io.ReadWriteCloser {
 		return bridgeIOPipes(c, h)
 	case "cf-netpipe":
 		return bridgeNetPipe(c, tracked())
+	case "cf-dataeof":
+		jr := newJoinReader(c, &e.joined)
+		e.joins.Store(c.LocalAddr().String(), jr)
+		return &directLeg{&hiddenLeg{read: jr.Read, write: c.Write, close: func() error { h.fire(); jr.stop(); return c.Close() }}, c.CloseWrite}
 	}
 	return tracked() // connectfunc, connecttls (the *tls.Conn goes on top)
 }
